@@ -66,7 +66,7 @@ Certain(tp, h) == /\ Prec(h) < Hole(tp)
                   /\ ~(tp = <<"between", "lo">>)                     \* closed by the `and` of between
                   /\ ~(tp = <<"between", "a">> /\ h.n = "between")
 
-Case(t, drop) == [tree |-> t, full |-> RenderFull(t), min |-> RenderMin(t)] @@ (IF drop THEN [nopar |-> RenderNoPar(t)] ELSE [nodrop |-> TRUE])
+Case(t, drop) == [tree |-> t, full |-> RenderFull(t), min |-> RenderMin(t), wrapmin |-> RenderWrapMin(t)] @@ (IF drop THEN [nopar |-> RenderNoPar(t)] ELSE [nodrop |-> TRUE])
 
 Pairs == {Case(Fill(tp, h), Certain(tp, h)) : tp \in Templates, h \in Inner}
 Trip  == IF Triples = "none" THEN {}
